@@ -123,3 +123,17 @@ def maybe_numpy(kw, case, ctx, keep=()):
         if k in kw:
             out[k] = kw[k]
     return out
+
+
+def construct(cls, kw, case, ctx, keep=()):
+    """builds cls(**kw), in every third generated case with the parameters as numpy scalars.  A constructor may insist on plain
+    Python types: an explicit refusal (ValueError / TypeError while constructing) is counted and the plain values are used - only
+    silent misbehaviour with numpy-typed parameters is the checks' business"""
+    nk = maybe_numpy(kw, case, ctx, keep)
+    if nk is kw:
+        return cls(**kw)
+    try:
+        return cls(**nk)
+    except (ValueError, TypeError):
+        ctx.count("numpy_typed_parameters_refused_by_constructor")
+        return cls(**kw)
